@@ -116,6 +116,8 @@ type Divergence struct {
 	Replay    string   `json:"replay"`
 	Known     bool     `json:"known"`
 	FirstDiff int      `json:"first_diff"`
+	// when the minimised case does not fail again: the run that did (first outputs that differ)
+	Original map[string]interface{} `json:"original_run,omitempty"`
 }
 
 type Result struct {
@@ -514,6 +516,19 @@ func Run(p Prop, cfg *Config) (*Result, error) {
 				d.FirstDiff = firstDiff(si, m[0])
 			}
 		}
+		if sv.OK && d.FirstDiff < 0 {
+			// not reproduced after shrinking: keep what was seen the first time
+			o := map[string]interface{}{"ops": c.Ops, "oracle": v.Why, "signature": v.Signature}
+			if fd >= 0 && modelOut != nil && fd < len(implOut[i]) && fd < len(modelOut[i]) {
+				o["first_diff"] = fd
+				o["impl"] = implOut[i][fd]
+				o["model"] = modelOut[i][fd]
+			}
+			d.Original = o
+			if d.Signature == "" {
+				d.Signature = "not reproduced: " + v.Signature
+			}
+		}
 		if d.Kind == "model-divergence" && d.Signature == "" {
 			d.Signature = "model-divergence"
 		}
@@ -561,24 +576,25 @@ func trunc(xs []string, n int) []string {
 }
 
 type replayFile struct {
-	Property       string   `json:"property"`
-	Kind           string   `json:"kind"`
-	Correspondence string   `json:"correspondence,omitempty"`
-	Theorem        string   `json:"theorem,omitempty"`
-	Seed           uint64   `json:"seed"`
-	Ops            []string `json:"ops"`
-	ImplOut        []string `json:"impl_out,omitempty"`
-	ModelOut       []string `json:"model_out,omitempty"`
-	Oracle         string   `json:"oracle_verdict,omitempty"`
-	Signature      string   `json:"signature,omitempty"`
-	HowToReplay    string   `json:"how_to_replay"`
+	Property       string                 `json:"property"`
+	Kind           string                 `json:"kind"`
+	Correspondence string                 `json:"correspondence,omitempty"`
+	Theorem        string                 `json:"theorem,omitempty"`
+	Seed           uint64                 `json:"seed"`
+	Ops            []string               `json:"ops"`
+	ImplOut        []string               `json:"impl_out,omitempty"`
+	ModelOut       []string               `json:"model_out,omitempty"`
+	Oracle         string                 `json:"oracle_verdict,omitempty"`
+	Signature      string                 `json:"signature,omitempty"`
+	HowToReplay    string                 `json:"how_to_replay"`
+	Original       map[string]interface{} `json:"original_run,omitempty"`
 }
 
 func writeReplay(d Divergence, p Prop, cfg *Config) {
 	os.MkdirAll(cfg.Replays, 0o755)
 	rf := replayFile{Property: p.ID(), Kind: d.Kind, Seed: cfg.Seed, Ops: d.Ops, ImplOut: d.ImplOut, ModelOut: d.ModelOut,
 		Oracle: d.Oracle, Signature: d.Signature, Correspondence: "driver model '" + p.Model() + "' vs implementation",
-		HowToReplay: "bin/check " + p.ID() + " --replay " + d.Replay}
+		HowToReplay: "bin/check " + p.ID() + " --replay " + d.Replay, Original: d.Original}
 	b, _ := json.MarshalIndent(rf, "", " ")
 	os.WriteFile(d.Replay, b, 0o644)
 }
